@@ -255,3 +255,28 @@ Fixpoint annotate (src : str) (t : tree) : ttree :=
 Definition t_rule (t : ttree) : N := match t with TNode r _ _ => r end.
 Definition t_txt (t : ttree) : str := match t with TNode _ x _ => x end.
 Definition t_kids (t : ttree) : list ttree := match t with TNode _ _ k => k end.
+
+(** EOI pairs carry no text; every consumer in scripting.rs skips them. *)
+Fixpoint strip_eoi (eoi : N) (t : ttree) : ttree :=
+  match t with
+  | TNode r x kids =>
+      TNode r x ((fix go (l : list ttree) : list ttree :=
+                    match l with
+                    | [] => []
+                    | k :: l' => if t_rule k =? eoi then go l' else strip_eoi eoi k :: go l'
+                    end) kids)
+  end.
+
+(** A rule body of the shape  e1 ~ ... ~ EOI  : success consumes the input. *)
+Fixpoint ends_with_eoi (e : pexp) : bool :=
+  match e with
+  | PEoi => true
+  | PSeq _ b => ends_with_eoi b
+  | _ => false
+  end.
+
+Definition top_anchored (g : grammar) (start : N) : bool :=
+  match lookup start (g_rules g) with
+  | Some (_, body) => ends_with_eoi body
+  | None => false
+  end.
